@@ -384,6 +384,106 @@ def directed_abstract_cases():
 def top_only():
     return {"name": "t", "abs": None, "layout": {"name": "t", "annots": [], "insts": [], "elems": [{"net": "n", "layer": 0, "purpose": "Pin", "shape": {"R": [[0, 0], [5, 5]]}}]}}
 
+def audit_cases():
+    """directed kinds added by the generator audit (2026-10-02): input classes the random kinds never reach.
+    `aud_*` are inside the property's input space (exportable), `aud_out_*` outside (compared with the model only)."""
+    out = []
+    M = (1 << 31) - 1
+    T0 = [{"num": 5, "name": None, "pairs": [[0, "Drawing"], [1, "Label"], [2, "Pin"]]}]
+    def lay(name, elems=None, insts=None):
+        return {"name": name, "abs": None, "layout": {"name": name, "insts": insts or [], "annots": [], "elems": elems or []}}
+    def el(shape, net=None, layer=0, purpose="Drawing"):
+        return {"net": net, "layer": layer, "purpose": purpose, "shape": shape}
+    def inst(cell, loc, reflect=False, angle=None, name="i"):
+        return {"name": name, "cell": cell, "loc": list(loc), "reflect": reflect, "angle": None if angle is None else (angle if isinstance(angle, int) else f2b(angle))}
+    def lib(kind, cells, layers=None, units="Nano", name="lib"):
+        out.append({"op": "rt", "kind": kind, "lib": {"name": name, "units": units, "layers": copy.deepcopy(T0 if layers is None else layers), "cells": cells}})
+    R = lambda x, y, w=4, h=2: {"R": [[x, y], [x + w, y + h]]}
+    # 1. every purpose variant on an element (the random kinds use Drawing / Pin / Obstruction only), with and without a net
+    TP = [{"num": 7, "name": "m1", "pairs": [[0, "Drawing"], [1, "Label"], [2, "Pin"], [3, "Obstruction"], [4, "Outline"], [5, {"Other": 5}], [6, {"Named": ["fill", 6]}], [9, {"Named": ["Fill", 9]}]]},
+          {"num": 8, "name": None, "pairs": [[20, "Label"], [0, {"Other": 0}], [-1, {"Named": ["", -1]}]]}]
+    es = []
+    for k, pu in enumerate(["Drawing", "Label", "Pin", "Obstruction", "Outline", {"Other": 5}, {"Named": ["fill", 6]}, {"Named": ["Fill", 9]}]):
+        es.append(el(R(10 * k, 0), None, 0, pu))
+        es.append(el(R(10 * k, 10), "n%d" % k, 0, pu))
+    for k, pu in enumerate(["Label", {"Other": 0}, {"Named": ["", -1]}]):
+        es.append(el({"G": [[10 * k, 30], [10 * k + 5, 30], [10 * k + 5, 32], [10 * k + 2, 32], [10 * k + 2, 38], [10 * k, 38]]}, "P%d" % k, 1, pu))
+        es.append(el({"P": [[[10 * k, 50], [10 * k + 6, 50]], 2]}, None, 1, pu))
+    lib("aud_purpose_kinds", [lay("c0", es)], layers=TP)
+    lib("aud_purpose_kinds", [lay("c0", es[:6]), lay("top", es[6:], [inst(0, (100, 100), True, 90.0)])], layers=TP, units="Micro")
+    # 2. layer and purpose numbers at the i16 limits and negative
+    TE = [{"num": -32768, "name": None, "pairs": [[-32768, "Drawing"], [32767, "Label"], [-1, "Pin"]]},
+          {"num": 32766, "name": "top", "pairs": [[32767, "Drawing"], [-32768, "Label"], [0, {"Other": 0}]]},
+          {"num": -1, "name": None, "pairs": [[-1, "Label"], [-2, "Drawing"]]}]
+    es = [el(R(0, 0), "a", 0, "Drawing"), el(R(10, 0), None, 0, "Pin"), el(R(20, 0), "b", 1, "Drawing"), el(R(30, 0), "c", 1, {"Other": 0}),
+          el({"P": [[[0, 10], [8, 10], [8, 20]], 3]}, "d", 2, "Drawing"), el({"G": [[40, 0], [46, 0], [43, 5]]}, "e", 2, "Drawing")]
+    lib("aud_layer_numbers_edge", [lay("c0", es)], layers=TE)
+    lib("aud_layer_numbers_edge", [lay("c0", es[:3]), {"name": "ab", "layout": None, "abs": {"name": "ab", "outline": [[0, 0], [9, 0], [9, 9], [0, 9]],
+         "ports": [{"net": "p", "shapes": [[0, [R(1, 1)]]]}], "blockages": []}}], layers=TE)
+    # 3. named polygons spanning most of the i32 range (Polygon::contains multiplies coordinate differences: 2^32 * 2^32)
+    B = 2000000000
+    for P in ([[-B, -B], [B, -B], [B, -B + 10], [-B + 10, -B + 10], [-B + 10, B], [-B, B]],                                  # L, centre outside
+              [[-B, B], [-B, -B], [B, -B], [B, B], [B - 10, B], [B - 10, -B + 10], [-B + 10, -B + 10], [-B + 10, B]],       # U, centre outside
+              [[3, M - 1], [-M - 1, -M - 1], [M, -M + 5]],                                                                  # triangle, centre inside
+              [[M - 1, M - 1], [-M - 1, M - 7], [-M - 1, -M - 1], [M - 9, -M - 1]],
+              [[1, M - 2], [-M - 1, 0], [0, -M - 1], [M, 0], [0, M]],                                                       # diamond touching the four limits
+              [[B, B - 10], [-B + 10, B - 10], [-B + 10, -B], [-B, -B], [-B, B], [B, B]]):
+        for k in (0, 2) if abs(P[2][0]) < M and abs(P[2][1]) < M else (0,):
+            Q = P[k:] + P[:k]
+            lib("aud_huge_polygon", [lay("c0", [el({"G": Q}, "big")])])
+            lib("aud_huge_polygon", [lay("c0", [el({"G": [Q[0]] + Q[:0:-1]}, "big")])])
+    # (a right triangle over the whole range whose hypotenuse misses the bounding-box centre and ends at the first point: the label
+    #  candidates next to it are tested against an edge that is 4e9 long in x AND y)
+    D4 = [[-M + 1, -M + 1], [M - 1, -M + 1], [M - 1, M - 1], [M - 11, M - 2000001]]
+    for sym in range(4):
+        Q = [[x, y] if sym == 0 else [-x, y] if sym == 1 else [x, -y] if sym == 2 else [-y, x] for x, y in D4]
+        lib("aud_huge_polygon", [lay("c0", [el({"G": Q if sym % 2 == 0 else [Q[0]] + Q[:0:-1]}, "diag")])])
+    # (the L of seeded change C07-m6: the long arm's far edge is 4e9 away from the first point, whose neighbours are the label candidates)
+    L6 = [[-B, -B], [B, -B], [B, B], [B - 10, B], [B - 10, -B + 10], [-B, -B + 10]]
+    for sym in range(4):
+        Q0 = [[x, y] if sym == 0 else [-x, y] if sym == 1 else [x, -y] if sym == 2 else [-y, x] for x, y in L6]
+        for k in range(6):
+            Q = Q0[k:] + Q0[:k]
+            if (k + sym) % 2:
+                Q = [Q[0]] + Q[:0:-1]
+            lib("aud_huge_polygon", [lay("c0", [el({"G": Q}, "ring")])])
+    lib("aud_huge_polygon", [lay("c0", [el({"G": [[-B, -B], [B, -B], [B, -B + 10], [-B + 10, -B + 10], [-B + 10, B], [-B, B]]}, None), el(R(0, 0), "in")])])
+    # 4. instance locations at the i32 limits (inside) and beyond them (outside: the export is an error)
+    leafc = lay("leaf", [el(R(0, 0), "n")])
+    lib("aud_inst_loc_edge", [leafc, lay("top", [], [inst(0, (M, -M - 1)), inst(0, (-M - 1, M), True, 270.0), inst(0, (M, M), False, 180.0), inst(0, (0, -M - 1), True)])])
+    for loc in ((M + 1, 0), (0, -M - 2), (1 << 40, 1), (-(1 << 63), (1 << 63) - 1)):
+        lib("aud_out_inst_loc", [leafc, lay("top", [el(R(5, 5))], [inst(0, (1, 1)), inst(0, loc, True, 90.0)])])
+    # 5. angles beyond one turn, negative zero, tiny, huge, not numbers (stored and brought back bit for bit)
+    for k, a in enumerate((450.0, -270.0, 720.0, -0.0, 1e300, 5e-324, 89.99999999999999, float("inf"), -float("inf"), float("nan"), 0x7FF0000000000001, 0xFFF8000000000000)):
+        lib("aud_inst_odd_angle", [leafc, lay("top", [], [inst(0, (3, -4), k % 2 == 0, a), inst(0, (30, 40), k % 2 == 1, a)])])
+    # 6. instances of a cell that has no view / of the instantiating cell itself (outside: nothing to re-import / cyclic)
+    lib("aud_out_inst_noview", [{"name": "ghost", "layout": None, "abs": None}, lay("top", [el(R(0, 0))], [inst(0, (1, 1))])])
+    lib("aud_out_inst_noview", [lay("top", [el(R(0, 0))], [inst(1, (1, 1))]), {"name": "ghost", "layout": None, "abs": None}])
+    lib("aud_out_inst_cyclic", [lay("a", [el(R(0, 0))], [inst(0, (1, 1))])])
+    lib("aud_out_inst_cyclic", [lay("a", [], [inst(1, (1, 1))]), lay("b", [el(R(0, 0))], [inst(0, (2, 2), True)])])
+    # 7. net names: empty, blanks, the characters next to the ASCII letters, long, differing in case only on two shapes
+    for k, net in enumerate(("", " ", " pad ", "@[\\]^_`{|}~", "AZaz09", "N" * 300, "a.b/c<3>", "\x01\x7f")):
+        lib("aud_net_chars", [lay("c0", [el(R(0, 0), net), el({"P": [[[0, 10], [9, 10]], 2]}, net, 0, "Pin"), el({"G": [[20, 0], [26, 0], [23, 5]]}, net.lower() if k % 2 else net)])])
+    lib("aud_net_chars", [lay("c0", [el(R(0, 0), "VDD"), el(R(10, 0), "vdd"), el(R(20, 0), "Vdd")])])
+    # 8. no cells at all; cells without content; names differing in case only, empty, with brackets / blanks
+    lib("aud_empty_lib", [])
+    lib("aud_empty_lib", [], units="Pico", name="")
+    lib("aud_empty_lib", [lay("only")], layers=[])
+    lib("aud_case_names", [lay("cell", [el(R(0, 0), "a")]), lay("CELL", [el(R(0, 0, 9, 9), "b")]), lay("Cell", [el({"P": [[[0, 0], [5, 0]], 1]})]),
+                           lay("top", [], [inst(0, (0, 0)), inst(1, (20, 0), True), inst(2, (40, 0), False, 90.0)]), lay("TOP", [el(R(1, 1))], [inst(3, (5, 5))])], name="LIB")
+    lib("aud_case_names", [lay("TOP", [el(R(1, 1))], [inst(1, (5, 5)), inst(2, (9, 9))]), lay("Top", [], [inst(2, (0, 0)), inst(3, (20, 0), True)]), lay("top", [el(R(0, 0), "a")]), lay("tOP", [el(R(0, 0, 9, 9), "b")])])
+    lib("aud_case_names", [lay("a[0][0]", [el(R(0, 0), "a")]), lay("", [el(R(0, 0), "e")]), lay(" x y ", [el(R(0, 0))]),
+                           lay("t", [], [inst(0, (0, 0)), inst(1, (20, 0)), inst(2, (40, 0))])], name="my lib (2)")
+    # 9. a chain of 12 cells in changing orientations; 150 elements and 150 instances in one cell
+    cells = [lay("n0", [el(R(0, 0), "x"), el({"P": [[[0, 5], [7, 5], [7, 9]], 2]}, "y", 0, "Pin")])]
+    for k in range(1, 12):
+        cells.append(lay("n%d" % k, [el(R(k, -k), "z%d" % k)], [inst(k - 1, (3 * k, -2 * k), k % 3 == 0, [None, 90.0, 180.0, 270.0, 0.0][k % 5])]))
+    lib("aud_deep_chain", list(reversed([dict(c) for c in cells])) and [dict(c, layout=dict(c["layout"], insts=[dict(i, cell=11 - i["cell"]) for i in c["layout"]["insts"]])) for c in reversed(cells)])
+    lib("aud_deep_chain", cells, units="Angstrom")
+    lib("aud_wide_cell", [leafc, lay("top", [el(R(7 * k, 100 + (k % 3)), ("w%d" % k) if k % 2 else None, 0, ["Drawing", "Pin"][k % 2]) for k in range(150)],
+                                    [inst(0, (7 * k, -50 - k), k % 2 == 0, [None, 90.0, 180.0, 270.0][k % 4], "i%d" % k) for k in range(150)])])
+    return out
+
 KINDS = [("plain", 58), ("abstract", 8), ("abs_slot", 4), ("overlap", 8), ("nolabel", 2), ("bigcoord", 3), ("i32edge", 3), ("badname", 2), ("noview", 1),
          ("dupname", 1), ("degenerate", 3), ("nonmanhattan", 2), ("badkey", 1), ("nopurpose", 2), ("sliver", 2)]
 
@@ -410,7 +510,7 @@ def gen_cases(chk):
     rng = chk.rng
     quick = chk.tier == "quick"
     dist = {}
-    cases = directed_cases()
+    cases = directed_cases() + audit_cases()
     n = 1100 if quick else 25000
     for _ in range(n):
         cases.append(gen_case(rng, C14.pick(rng, KINDS), dist))
@@ -625,6 +725,7 @@ def run(chk, replay=None):
                                                 "Raw/RawGdsAbstract_proofs.v"], "Properties.C07")
     kernel_tie_leg(chk, "transform")
     kernel_tie_leg(chk, "raw")
+    kernel_tie_leg(chk, "raw_gdsx")       # gds.rs export_point / export_layerspec / export_shape / label_location generated from the source = the model (Properties/KernelsRawGdsExport.v)
     chk.assumptions += [
         "Ptr<Cell> targets are indices into the library's own cell list (libraries closed under instantiation); locks not modelled",
         "LayerKey = slot index (no layer is ever removed); Layer.purps/nums are derived from the sequence of add_purpose calls",
